@@ -116,6 +116,25 @@ pub fn constant_sources() -> Vec<(String, String)> {
         let src = format!("{defs}tx t(quantity: Int) {{\n    input source {{\n        from: Sender,\n        min_amount: Ada(quantity) + fees,\n        ref: [{l}],\n    }}\n    reference shared {{\n        ref: [{l}],\n    }}\n    collateral {{\n        ref: [{l}],\n    }}\n    output {{\n        to: Receiver,\n        amount: source - fees,\n    }}\n}}\n");
         out.push((format!("gen-ref-lists-{k}"), src));
     }
+    // a block written two or three times over, verbatim: every time the program is lowered it says the same thing
+    // as many times
+    let blocks = [
+        "    cardano::withdrawal {\n        from: Sender,\n        amount: 0,\n        redeemer: (),\n    }\n".to_string(),
+        "    cardano::treasury_donation {\n        coin: 5,\n    }\n".to_string(),
+        format!("    cardano::plutus_witness {{\n        version: 3,\n        script: 0x{},\n    }}\n", "ab".repeat(12)),
+        format!("    cardano::native_witness {{\n        script: 0x{},\n    }}\n", "8200581c".to_string() + &"11".repeat(28)),
+        "    mint {\n        amount: Gold(1),\n        redeemer: (),\n    }\n".to_string(),
+        "    metadata {\n        1: \"memo\",\n        2: quantity,\n    }\n".to_string(),
+        "    output {\n        to: Receiver,\n        amount: Ada(quantity),\n    }\n".to_string(),
+        "    signers {\n        Sender,\n        Receiver,\n    }\n".to_string(),
+    ];
+    for (k, b) in blocks.iter().enumerate() {
+        for times in [2usize, 3] {
+            let body = b.repeat(times);
+            let src = format!("{defs}tx t(quantity: Int) {{\n    input source {{\n        from: Sender,\n        min_amount: Ada(quantity) + fees,\n    }}\n{body}    output {{\n        to: Receiver,\n        amount: source - fees,\n    }}\n}}\n");
+            out.push((format!("gen-block-x{times}-{k}"), src));
+        }
+    }
     for (k, e) in exprs.iter().enumerate() {
         for place in 0..4 {
             let (min_amount, mint, burn, pay) = match place {
@@ -898,7 +917,7 @@ pub fn interface_program_with(r: &mut Rng, collide: bool, special: Option<&str>)
             _ => cased(r, &format!("at{k}")),
         };
         params.push(at.clone());
-        let pos = r.below(16);
+        let pos = r.below(23);
         let reg = |entries: &str, items: &str, n: &str| format!("        datum: Reg {{ entries: {{{entries}}}, items: [{items}], n: {n}, }},\n");
         let (datum, blocks): (String, String) = match pos {
             0 => (reg(&format!("{at}: 1,"), "1,", "1"), String::new()),
@@ -917,6 +936,14 @@ pub fn interface_program_with(r: &mut Rng, collide: bool, special: Option<&str>)
             // one metadata label written twice, the parameter in the earlier / the later entry
             14 => (String::new(), format!("    metadata {{\n        674: {at},\n        674: 2,\n    }}\n")),
             15 => (String::new(), format!("    metadata {{\n        674: 2,\n        674: {at},\n    }}\n")),
+            // a second input, pinned by a reference, that still says what it has to hold / how it is spent
+            16 => (String::new(), format!("    input pinned {{\n        from: {sender},\n        ref: 0x{}#1,\n        min_amount: Ada({at}),\n    }}\n", "ab".repeat(32))),
+            17 => (String::new(), format!("    input pinned {{\n        from: {sender},\n        ref: 0x{}#1,\n        redeemer: {at},\n    }}\n", "ab".repeat(32))),
+            18 => (String::new(), format!("    input pinned {{\n        ref: 0x{}#1,\n        min_amount: Ada({at}) + fees,\n        redeemer: (),\n    }}\n", "ab".repeat(32))),
+            19 => (String::new(), format!("    collateral {{\n        from: {sender},\n        min_amount: Ada({at}),\n    }}\n")),
+            20 => (String::new(), format!("    burn {{\n        amount: AnyAsset(0xabcdef12, \"AT\", {at}),\n        redeemer: (),\n    }}\n")),
+            21 => (String::new(), format!("    cardano::treasury_donation {{\n        coin: {at},\n    }}\n")),
+            22 => (String::new(), format!("    input second {{\n        from: {receiver},\n        min_amount: Ada({at}),\n    }}\n")),
             _ => (reg(&format!("1: 1, {at}: 2,"), "1,", "1"), String::new()),
         };
         if collide && k == 0 {
